@@ -735,4 +735,46 @@ def send (pl : Plan) (args : Args) : Outcome :=
     | some sets =>
       .sent ⟨pl.verb.upper, path, some (setAll [] (sets ++ dictSets args pl.dict)), body, pl.headers, ctxTag args pl.ctx⟩
 
+/-! ## the request on the wire, attempt by attempt, when the client's chain contains RetryMiddleware
+
+middleware/retry.go:24 — `resp, err = next.RoundTrip(req)` inside the loop: every attempt hands the SAME
+`*http.Request` to the next transport. Verb, URL, headers and context are therefore the request's own on
+every attempt. `req.Body` is the reader `http.NewRequest` wrapped around the JSON (`bytes.NewReader`): the
+transport of the first attempt reads it to the end, so a later attempt finds nothing left to read, while
+`ContentLength` still announces the JSON's length (nothing calls `req.GetBody`). -/
+
+/-- the body as the transport of one attempt reads it -/
+inductive WireBody where
+  | absent               -- the request has no body
+  | whole (b : String)   -- json.Marshal(b), complete
+  | drained (b : String) -- Content-Length of json.Marshal(b), but zero bytes to read
+  deriving Repr, DecidableEq
+
+structure Attempt where
+  verb : String
+  path : List Char
+  query : Option (List (String × List Char))
+  headers : List (String × String)
+  body : WireBody
+  ctx : Option String     -- tag of the context the transport receives; none: context.Background()
+  ctxDone : Bool          -- that context has already ended when the attempt begins
+  deriving Repr, DecidableEq
+
+/-- has the caller, who cancels its context right after attempt `cancelAfter` was answered (none: never),
+    done so before attempt `j` begins -/
+def cancelledBefore (cancelAfter : Option Nat) (j : Nat) : Bool :=
+  match cancelAfter with
+  | some k => decide (k < j)
+  | none => false
+
+/-- attempt `j` (0-based) of a call whose request is `r`. A call without a context parameter runs under
+    context.Background(), which never ends. -/
+def attempt (r : Request) (cancelAfter : Option Nat) (j : Nat) : Attempt :=
+  { verb := r.verb, path := r.path, query := r.query, headers := r.headers,
+    body := (match r.body with
+      | none => .absent
+      | some b => if j = 0 then .whole b else .drained b),
+    ctx := r.ctx,
+    ctxDone := r.ctx.isSome && cancelledBefore cancelAfter j }
+
 end ShootVerif.Rest
